@@ -396,3 +396,102 @@ Proof.
   - transitivity (Some (go d s0 e0 rest)); [apply merge_model_go; [lia|exact (proj1 Hwf)]|]. f_equal.
     rewrite <- (bridge_go d Hd rest s0 e0). f_equal. apply (go0_runs s0 e0 rest size Hs Hwf).
 Qed.
+
+(* ---------- T2 with empty intervals (start = stop) allowed ---------- *)
+Lemma go0_covered_le : forall rest cs m x,
+  sortedb Z.leb (cs :: map fst rest) = true -> (forall i, In i rest -> fst i <= snd i) ->
+  covered (go 0 cs m rest) x = covers x (cs, m) || covered rest x.
+Proof.
+  induction rest as [|[s e] r IH]; intros cs m x Hs Hne.
+  - cbn [go]. rewrite covered_cons, covered_nil. reflexivity.
+  - cbn [map fst] in Hs. apply sortedb_cons in Hs. destruct Hs as [Hcs Hs]. apply Z.leb_le in Hcs.
+    assert (Hse : s <= e) by (apply (Hne (s, e)); left; reflexivity).
+    assert (Hne' : forall i, In i r -> fst i <= snd i) by (intros i Hi; apply Hne; right; exact Hi).
+    cbn [go]. rewrite Z.add_0_r. destruct (Z.ltb_spec m s) as [Hlt|Hge].
+    + rewrite covered_cons. rewrite (IH s (Z.max m e) x Hs Hne').
+      replace (Z.max m e) with e by lia. rewrite (covered_cons (s, e)). reflexivity.
+    + rewrite (IH cs (Z.max m e) x (sorted_skip _ _ _ Hcs Hs) Hne').
+      rewrite (covered_cons (s, e)). rewrite orb_assoc. f_equal.
+      apply bool_eq_iff. rewrite orb_true_iff, !covers_iff. cbn [fst snd]. lia.
+Qed.
+Lemma go_bounds_le d : forall rest cs m lo hi,
+  0 <= d -> cs <= m -> lo <= cs -> m <= hi -> (forall i, In i rest -> fst i <= snd i /\ lo <= fst i /\ snd i <= hi) ->
+  forall o, In o (go d cs m rest) -> fst o <= snd o /\ lo <= fst o /\ snd o <= hi.
+Proof.
+  induction rest as [|[s e] r IH]; intros cs m lo hi Hd Hcm Hlo Hhi Hin o Ho.
+  - destruct Ho as [Ho|[]]. subst o. simpl. lia.
+  - assert (Hse : s <= e /\ lo <= s /\ e <= hi) by (apply (Hin (s, e)); left; reflexivity).
+    assert (Hin' : forall i, In i r -> fst i <= snd i /\ lo <= fst i /\ snd i <= hi) by (intros i Hi; apply Hin; right; exact Hi).
+    cbn [go] in Ho. destruct (m + d <? s).
+    + destruct Ho as [Ho|Ho]; [subst o; simpl; lia|].
+      apply (IH s (Z.max m e) lo hi); try assumption; lia.
+    + apply (IH cs (Z.max m e) lo hi); try assumption; lia.
+Qed.
+Lemma sep_after_le a t : sep 0 (a :: t) -> (forall o, In o t -> fst o <= snd o) -> forall j, In j t -> snd a < fst j.
+Proof.
+  revert a. induction t as [|b t IH]; intros a Hs Hne j Hj; [destruct Hj|].
+  apply sep_cons in Hs. destruct Hs as [H1 H2].
+  destruct Hj as [Hj|Hj]; [subst; lia|].
+  assert (fst b <= snd b) by (apply Hne; left; reflexivity).
+  specialize (IH b H2 (fun o Ho => Hne o (or_intror Ho)) j Hj). lia.
+Qed.
+Lemma sep_intro a l : (forall j, In j l -> snd a < fst j) -> sep 0 l -> sep 0 (a :: l).
+Proof.
+  intros H1 H2. destruct l as [|b l]; [exact I|]. apply sep_cons. split; [|exact H2].
+  specialize (H1 b (or_introl eq_refl)). lia.
+Qed.
+Lemma sep_filter (p : iv -> bool) out : sep 0 out -> (forall o, In o out -> fst o <= snd o) -> sep 0 (filter p out).
+Proof.
+  induction out as [|a t IH]; intros Hs Hle; [exact I|].
+  pose proof (sep_after_le a t Hs (fun o Ho => Hle o (or_intror Ho))) as Haft.
+  specialize (IH (sep_tail _ _ _ Hs) (fun o Ho => Hle o (or_intror Ho))).
+  cbn [filter]. destruct (p a); [|exact IH].
+  apply sep_intro; [|exact IH]. intros j Hj. apply filter_In in Hj. apply Haft. tauto.
+Qed.
+Lemma covered_filter_nonempty out x : (forall o, In o out -> fst o <= snd o) ->
+  covered (filter (fun i => negb (fst i =? snd i)) out) x = covered out x.
+Proof.
+  induction out as [|[s e] out IH]; intros H; [reflexivity|].
+  specialize (IH (fun o Ho => H o (or_intror Ho))). specialize (H (s, e) (or_introl eq_refl)). cbn [fst snd] in H.
+  cbn [filter fst snd]. destruct (Z.eqb_spec s e) as [E|E]; cbn [negb].
+  - rewrite IH, covered_cons. subst e. unfold covers. cbn [fst snd].
+    destruct (Z.leb_spec s x); destruct (Z.ltb_spec x s); cbn [andb orb]; try reflexivity; lia.
+  - rewrite !covered_cons, IH. reflexivity.
+Qed.
+
+Lemma mask_is_positive_coverage_gen I size : 0 <= size ->
+  (forall i, In i I -> 0 <= fst i /\ fst i <= snd i /\ snd i <= size) ->
+  mask_model I size = Some (mask_spec I size).
+Proof.
+  intros Hs Hwf. unfold mask_model.
+  replace (existsb (fun i => size <? snd i) I) with false.
+  2:{ symmetry. apply not_true_is_false. intros H. apply existsb_exists in H. destruct H as [i [Hi H]].
+      apply Z.ltb_lt in H. specialize (Hwf i Hi). lia. }
+  destruct I as [|i0 I0] eqn:EI.
+  - unfold from_intervals_mask. cbn. f_equal.
+  - rewrite <- EI in *. assert (HI : isort pos_leb I <> []).
+    { intros E. pose proof (isort_perm pos_leb I) as Hp. rewrite E in Hp. apply Permutation_nil in Hp. rewrite EI in Hp. discriminate. }
+    clear EI i0 I0.
+    pose proof (isort_perm pos_leb I) as Hperm.
+    pose proof (isort_sorted pos_leb pos_leb_total I) as Hsorted. rewrite sorted_pos_fst in Hsorted.
+    destruct (isort pos_leb I) as [|[s0 e0] rest] eqn:Es; [congruence|].
+    assert (Hwf' : forall i, In i ((s0, e0) :: rest) -> 0 <= fst i /\ fst i <= snd i /\ snd i <= size)
+      by (intros i Hi; apply Hwf; apply (Permutation_in _ Hperm); exact Hi).
+    pose proof (Hwf' (s0, e0) (or_introl eq_refl)) as H0. cbn [fst snd] in H0.
+    assert (Hm : merge_model 0 ((s0, e0) :: rest) = Some (go 0 s0 e0 rest)) by (apply merge_model_go; [lia|exact Hsorted]).
+    rewrite Hm.
+    set (out := go 0 s0 e0 rest).
+    assert (Hb : forall o, In o out -> fst o <= snd o /\ 0 <= fst o /\ snd o <= size).
+    { intros o Ho. apply (go_bounds_le 0 rest s0 e0 0 size); try lia; try exact Ho.
+      intros i Hi. specialize (Hwf' i (or_intror Hi)). lia. }
+    set (fo := filter (fun i => negb (fst i =? snd i)) out).
+    assert (Hsep : sep 0 fo) by (apply sep_filter; [apply go_sep|intros o Ho; apply (Hb o Ho)]).
+    unfold from_intervals_mask.
+    replace (forallb (fun i => fst i <? snd i) fo) with true.
+    2:{ symmetry. apply forallb_forall. intros o Ho. unfold fo in Ho. apply filter_In in Ho. destruct Ho as [Ho Hn].
+        specialize (Hb o Ho). apply negb_true_iff in Hn. apply Z.eqb_neq in Hn. apply Z.ltb_lt. lia. }
+    rewrite (sep_touch_assert fo Hsep). cbn [andb]. f_equal. unfold mask_spec. apply map_ext. intros x.
+    rewrite existsb_covers. unfold fo. rewrite covered_filter_nonempty by (intros o Ho; apply (Hb o Ho)).
+    unfold out. rewrite (go0_covered_le rest s0 e0 x Hsorted) by (intros i Hi; specialize (Hwf' i (or_intror Hi)); lia).
+    rewrite <- (covered_cons (s0, e0)). symmetry. apply covered_perm. apply Permutation_sym. exact Hperm.
+Qed.
